@@ -55,12 +55,106 @@ def nat_crashpoints(h):
             h.check(os.path.exists(final), 'dataflows/processors/stream.py::stream.func', (data, 'complete'), 'final exists', None)
         finally:
             shutil.rmtree(d, ignore_errors=True)
+        # the ordinary retry loop: the SAME flow object is run again after the failure (the fault is transient), then a later
+        # run picks the checkpoint up
+        d = tempfile.mkdtemp(prefix='c08r_')
+        try:
+            armed = [True]
+            seen2 = [0]
+
+            def bomb_once(rows):
+                for r in rows:
+                    if armed[0] and seen2[0] == fail_at:
+                        armed[0] = False
+                        raise RuntimeError('transient boom')
+                    seen2[0] += 1
+                    yield r
+            same = Flow(*data, bomb_once, checkpoint('cp', checkpoint_path=d)) if upstream else \
+                Flow(*data, checkpoint('cp', checkpoint_path=d), bomb_once)
+            a1 = h.run(lambda: same.results()[0])
+            a2 = h.run(lambda: same.results()[0]) if a1[0] == 'exc' else a1
+            a3 = h.run(lambda: Flow(*data, checkpoint('cp', checkpoint_path=d)).results()[0])
+            if fail_at < total:
+                h.check(a1[0] == 'exc', 'dataflows/processors/stream.py::stream.func', (data, fail_at, 'retry'), 'first attempt fails', a1[:2])
+            h.check(a2[0] == 'ok' and a2[1] == data and a3[0] == 'ok' and a3[1] == data, 'dataflows/processors/checkpoint.py::checkpoint',
+                    (data, fail_at, 'same flow object retried, then a later run'), data, (a2[:2], a3[:2]))
+        finally:
+            shutil.rmtree(d, ignore_errors=True)
+
+
+def nat_io_faults(h):
+    """bounded: an OSError injected at the k-th write / flush / close of the .active file (disk full): the run fails, no final
+    checkpoint exists, and the next (fault-free) run recomputes from the sources"""
+    import os, tempfile, shutil, builtins
+    from dataflows import Flow, checkpoint
+    real_open = builtins.open
+
+    class Faulty:
+        def __init__(self, f, plan):
+            self.f, self.plan, self.n = f, plan, {'write': 0, 'flush': 0, 'close': 0}
+
+        def _op(self, name, *a):
+            self.n[name] += 1
+            if self.plan == (name, self.n[name]):
+                raise OSError(28, 'No space left on device')
+            return getattr(self.f, name)(*a)
+
+        def write(self, s):
+            return self._op('write', s)
+
+        def flush(self):
+            return self._op('flush')
+
+        def close(self):
+            return self._op('close')
+
+        def __getattr__(self, name):
+            return getattr(self.f, name)
+    for _ in range(h.n(30, 200)):
+        nres = h.rng.randint(1, 3)
+        data = [[{'a': i, 'b': 'x%d' % i} for i in range(h.rng.randint(0, 4))] for _ in range(nres)]
+        plan = (h.rng.choice(['write', 'write', 'flush', 'close']), h.rng.randint(1, 6))
+        d = tempfile.mkdtemp(prefix='c08f_')
+        hit = [False]
+        pulled = [0]
+
+        def counting(rows):
+            for r in rows:
+                pulled[0] += 1
+                yield r
+
+        def fake_open(name, *a, **k):
+            f = real_open(name, *a, **k)
+            if isinstance(name, str) and name.endswith('.active'):
+                hit[0] = True
+                return Faulty(f, plan)
+            return f
+        try:
+            builtins.open = fake_open
+            try:
+                r1 = h.run(lambda: Flow(*data, checkpoint('cp', checkpoint_path=d)).process())
+            finally:
+                builtins.open = real_open
+            final = os.path.join(d, 'cp', 'stream.ndjson')
+            if r1[0] == 'exc':
+                h.check(not os.path.exists(final), 'dataflows/processors/stream.py::stream.write', (data, plan),
+                        'failed run leaves no final checkpoint', os.listdir(os.path.join(d, 'cp')))
+            pulled[0] = 0
+            r2 = h.run(lambda: Flow(*[counting(x) for x in data], checkpoint('cp', checkpoint_path=d)).results()[0])
+            recomputed = pulled[0] == sum(len(x) for x in data)
+            h.check(r2[0] == 'ok' and r2[1] == data and (recomputed or r1[0] == 'ok'), 'dataflows/processors/stream.py::stream.write',
+                    (data, plan), ('same rows; recomputed from the sources unless the first run succeeded', data),
+                    (r1[:2], r2[:2], 'rows pulled from the sources: %d' % pulled[0]))
+        finally:
+            builtins.open = real_open
+            shutil.rmtree(d, ignore_errors=True)
 
 
 ITEMS = [
     Item('stream.setup', S.sym_stream_setup, [], 'dataflows/processors/stream.py::stream'),
     Item('stream.res_writer', S.sym_res_writer, [], 'dataflows/processors/stream.py::stream.res_writer'),
-    Item('stream.func', S.sym_stream_func, [('crashpoints', nat_crashpoints)], 'dataflows/processors/stream.py::stream.func'),
+    Item('stream.func', S.sym_stream_func, [('crashpoints', nat_crashpoints), ('io-faults', nat_io_faults)], 'dataflows/processors/stream.py::stream.func'),
+    Item('stream.faulty-io', S.sym_stream_faulty, [], 'dataflows/processors/stream.py::stream.write'),
     Item('checkpoint', S.sym_checkpoint, [], 'dataflows/processors/checkpoint.py::checkpoint._preprocess_chain'),
     Item('unstream', S.sym_unstream, [], 'dataflows/processors/unstream.py::unstream'),
 ]
